@@ -43,9 +43,13 @@ def gen_params(rng, tier):
         d = gen.gen_datum(rng, crit)
         w = gen.gen_weight(rng, 0.1)
         if rng.random() < 0.35:
-            d[rng.choice(cols)] = RAISES if rng.random() < 0.5 else WRONG
+            # (a memoised quantity is the failing one more often than its share of the columns: the memo must not answer
+            # the repeated failing record with what it computed for an earlier one)
+            ccols = [n["q"][0] for n in gen.walk(spec) if "q" in n and len(n["q"]) > 2 and n["q"][2] == "cached"]
+            c_ = rng.choice(ccols) if ccols and rng.random() < 0.6 else rng.choice(cols)
+            d[c_] = RAISES if (rng.random() < 0.5 or c_ in ccols) else WRONG
             stream.append([d, w])
-            if rng.random() < 0.3:
+            if rng.random() < (0.6 if c_ in ccols else 0.3):
                 stream.append([list(d), w])   # the same failing record again (a memoised quantity must fail again)
             continue
         stream.append([d, w])
